@@ -13,15 +13,13 @@ def grpG6 : Atom → Bool
 
 set_option maxHeartbeats 4000000 in
 theorem pairGeneral_conforms_G6 (m : Mode) (op : Op) (a b : Atom) (hg : grpG6 a = true)
-    (h1 : trigTol false op a b = false) (h2 : trigPromotion false a b = false)
-    (h4 : trigUntyped op a b = false)
+    (h1 : trigTol op a b = false) (h2 : trigPromotion a b = false)
     (h5 : pairSpec m op a b ≠ .error .unsupported) (h6 : pairGeneral m op a b ≠ .error .unsupported)
-    (h8 : dtConsistent a b = true) (h9 : trigUntypedQN m a b = false) :
+    (h8 : dtConsistent a b = true) :
     pairGeneral m op a b = pairSpec m op a b := by
   cases a <;> simp [grpG6] at hg <;> cases b <;>
       first
       | (gp_simp; done)
-      | (simp [trigUntyped, isTemporal, Atom.isDT, Atom.isDur] at h4; done)
       | (simp [dtConsistent, Atom.isDT, Atom.dt] at h8; gp_simp; simp [dtCompare_eq_six _ _ _ h8]; done)
       | skip
   case dtd.ua => exact pg_temporal_ua m op _ _ rfl h5
